@@ -57,6 +57,16 @@ def checkHandlersOrder (j : Json) : Except String Verdict := do
   if jBoolD o "hang" false then
     return { nontrivial := true, mismatch := none, specfail := some s!"C07.no_deadlock: update, lookup and handler registration did not all finish: {ev}" }
   let idx (e : String) : Option Nat := ev.findIdx? (· == e)
+  if jStrD j "kind" "" = "dump" then
+    -- a dump parked while it renders the cache, an update of the same type: they exclude each other (manager lock)
+    let sf : Option String :=
+      match idx "update done", idx "dump done" with
+      | some u, some d =>
+        if u < d then some s!"C07.race_free: an update wrote the cache of a type while a dump was iterating it (the dump no longer holds the manager lock while it renders): a data race between dumps and updates, and a crash of the process when the two overlap inside the map (\"concurrent map iteration and map write\"): {ev}"
+        else none
+      | _, _ => some s!"C07: dump or update did not finish: {ev}"
+    let mm : Option String := if ev.contains "update waits" then none else some s!"dump racing an update: in the model the update waits for the manager lock the dump holds: {ev}"
+    return { nontrivial := true, mismatch := mm, specfail := sf }
   if jStrD j "kind" "" = "registration" then
     -- the lookup at the end returns the content of the second update; the handler registered meanwhile has seen it
     let sf : Option String :=
@@ -94,6 +104,10 @@ def checkHandlersOrder (j : Json) : Except String Verdict := do
       | none => some s!"C07.policy_before_data: the first handler never completed: {ev}"
       | some x =>
         if x > g then some s!"C07.policy_before_data: the lookup exposed {n} while a registered handler was still running for the update that delivered it: {ev}"
+        else if (ev.findIdx? (fun e => e.startsWith "wget val:")).any (fun wgi => wgi < x) then
+          some s!"C07.policy_before_data: the lookup that was WAITING for {n} was woken and returned it while a registered handler was still running for the update that delivered it: {ev}"
+        else if (ev.any (fun e => e.startsWith "wget ")) && !(ev.any (fun e => e.startsWith "wget val:")) then
+          some s!"C06/C07: the lookup that was waiting for {n} did not return it: {ev}"
         else match idx "H2 registered" with
           | some r2 =>
             if r2 < g then
